@@ -1,7 +1,12 @@
 #!/bin/sh
 # usage: try_mutant.sh <patch> <prop> [<prop>...]   (applies to /repo, runs checks, reverts)
+# with MATRIX_REPO=<dir> the patch is applied to that copy of the repository and the checks run against it
+# (VERIF_REPO), from the directory this script lives in: nothing touches /repo or /verif/evidence of the main tree
 patch=$1; shift
-cd /repo || exit 2
+REPO_DIR=${MATRIX_REPO:-/repo}
+VERIF_DIR=$(cd "$(dirname "$0")/.." && pwd)
+[ -n "$MATRIX_REPO" ] && export VERIF_REPO=$MATRIX_REPO
+cd $REPO_DIR || exit 2
 if git apply --check "$patch" 2>/dev/null; then
   git apply "$patch"
 else
@@ -11,12 +16,12 @@ else
     git checkout -q -- .; echo "PATCH-DOES-NOT-APPLY $patch"; exit 3
   fi
 fi
-cd /verif
+cd $VERIF_DIR
 for p in "$@"; do
   ./check "$p" --tier ${TIER:-quick} > /tmp/try_mutant.out 2>&1; rc=$?
   grep "^VIOLATION" /tmp/try_mutant.out | cut -c1-200 | head -${TAILN:-2}
   grep -v "^KNOWN\|^VIOLATION\|^MODEL-DRIFT" /tmp/try_mutant.out | cut -c1-260 | tail -1
   echo "RESULT $p rc=$rc violations=$(grep -c '^VIOLATION' /tmp/try_mutant.out) drift=$(grep -c '^MODEL-DRIFT' /tmp/try_mutant.out)"
 done
-cd /repo && git checkout -q -- . && git clean -fdq >/dev/null 2>&1
+cd $REPO_DIR && git checkout -q -- . && git clean -fdq >/dev/null 2>&1
 git status --short | head -3
